@@ -44,10 +44,12 @@ ConvVerdict(g, x) ==
     IF x.conv.exc # "" THEN (IF Bridges(g.loc) THEN "ok" ELSE Raised(x.conv))
     ELSE LET c == ConvClause(g, x.s, x.e, x.conv.v) IN IF c = "ok" THEN "ok" ELSE c \o ":"
 
-PreVerdict(R, g, x) ==
+(* pre: the sections of a prepeptide as placed by the feature itself (x.pre) or by the feature rebuilt from what was
+   written out (x.pre2: GenBank output read again, reused results) *)
+PreVerdictOf(R, g, x, pre) ==
     LET n == NumRes(g) IN
-    IF x.pre.exc # "" THEN Raised(x.pre)
-    ELSE LET p == x.pre.v
+    IF pre.exc # "" THEN Raised(pre)
+    ELSE LET p == pre.v
              core == SubClause(R, g, x.s, x.e, p.core)
          IN  IF core # "ok" THEN "core_" \o core \o ":"
              ELSE IF p.hl # (x.s > 0) THEN "leader_iff_nonempty:"
@@ -56,6 +58,15 @@ PreVerdict(R, g, x) ==
              ELSE IF p.ht /\ SubClause(R, g, x.e, n, p.tail) # "ok" THEN "tail_" \o SubClause(R, g, x.e, n, p.tail) \o ":"
              ELSE IF ~p.tr THEN "extract_translate:"
              ELSE "ok"
+
+PreVerdict(R, g, x) == PreVerdictOf(R, g, x, x.pre)
+(* a gene two of whose exons abut on the record without following each other in the gene (the last exon of a gene
+   that runs round most of a small ring touching its first one): what is written out lists abutting stretches, and
+   reading them back cannot tell two such exons from one exon cut in two - the read-back clause leaves these genes out *)
+SelfAbutting(g) ==
+    \E i, j \in DOMAIN g.loc.parts : /\ j > i + 1
+                                     /\ (g.loc.parts[i][2] = g.loc.parts[j][1] \/ g.loc.parts[j][2] = g.loc.parts[i][1])
+ReadBackVerdict(R, g, x) == IF SelfAbutting(g) THEN "ok" ELSE PreVerdictOf(R, g, x, x.pre2)
 
 GeneFailed(ev) ==
     LET R == RingOf(ev)
@@ -77,6 +88,7 @@ RangesFailed(ev) ==
         \cup Group("convert", LAMBDA i : ConvVerdict(g, rs[i]), idx)
         \cup (IF ev.callers
               THEN Group("prepeptide", LAMBDA i : PreVerdict(R, g, rs[i]), idx)
+                   \cup Group("prepeptide_read_back", LAMBDA i : ReadBackVerdict(R, g, rs[i]), idx)
                    \cup Group("hmmer", LAMBDA i : LocTrVerdict(R, g, rs[i].s, rs[i].e, rs[i].hm), idx)
                    \cup Group("domain", LAMBDA i : LocTrVerdict(R, g, rs[i].s, rs[i].e, rs[i].dom), idx)
                    \cup Group("motif", LAMBDA i : LocTrVerdict(R, g, rs[i].s, rs[i].e, rs[i].mot), idx)
